@@ -247,14 +247,17 @@ func serializeBlock(ctx context.Context, codec cid.Prefix, encoding string, raw 
 // DebugCar is a command to translate between a car file, and a human-debuggable patch-like format.
 func DebugCar(c *cli.Context) error {
 	var err error
-	inStream := os.Stdin
+	// Standard input may be a pipe: an *os.File whose Seek method fails. Hide
+	// everything but Read so that a CARv2 header's padding is skipped by reading.
+	var inStream io.Reader = struct{ io.Reader }{os.Stdin}
 	inFile := "-"
 	if c.Args().Len() >= 1 {
 		inFile = c.Args().First()
-		inStream, err = os.Open(inFile)
+		f, err := os.Open(inFile)
 		if err != nil {
 			return err
 		}
+		inStream = f
 	}
 
 	rd, err := carv2.NewBlockReader(inStream)
